@@ -133,3 +133,12 @@ c08_harness! {
     c08_irq = (CLASS_IRQ, None);
     c08_iofetch = (CLASS_IOFETCH, None);
 }
+
+/// The default internal-register mappings installed (PSR at xFFFC, MCR at xFFFE): accesses at those
+/// addresses reach the register, never a device; everything else as in `c08_all`.
+pub mod ir {
+    use crate::kfam::{run, Opts, BASE};
+    crate::kstep_harnesses! {
+        c08_iregs = run(Opts { class: super::CLASS_ANY, iregs: true, a_arch: true, a_mem: true, a_calls: true, a_depth: true, ..BASE });
+    }
+}
